@@ -63,6 +63,8 @@ type scenario struct {
 	Reneg    bool // client under test allows renegotiation
 	Staple   bool // server certificate carries OCSP staple and SCTs
 	NoTicket bool
+	Insecure bool   // client under test does not verify the server (scanner configuration)
+	Synth    string // "dhe": the server flight is built by hand (no zcrypto or Go server negotiates DHE)
 }
 
 type frozenCache struct {
@@ -105,6 +107,8 @@ func (sc *scenario) eutClient(cache *frozenCache, keylog io.Writer) *ztls.Config
 	if sc.Reneg {
 		c.Renegotiation = ztls.RenegotiateFreelyAsClient
 	}
+	c.InsecureSkipVerify = sc.Insecure
+	c.ForceSuites = sc.Synth != "" // the client-only suites are offered only when forced
 	return c
 }
 
@@ -169,6 +173,38 @@ func scenarios() []scenario {
 	for _, key := range []string{"0303/c02f", "0303/002f", "0302/c013"} {
 		add(scenario{Name: "+reneg", Reneg: true}, key)
 	}
+	// scanner configuration: no verification, so that mutated certificates and signatures do not end the handshake
+	n := len(out)
+	for _, key := range []string{"0303/c02f", "0303/c02b", "0303/002f", "0301/c013", "0304/1301", "0304/1303"} {
+		add(scenario{Name: "+insecure", Insecure: true}, key)
+	}
+	kept := out[:n]
+	for _, s := range out[n:] {
+		if s.EUT == "client" {
+			kept = append(kept, s)
+		}
+	}
+	out = kept
+	// DHE key exchange exists on the client only: hand-built server flights
+	for _, v := range []uint16{vTLS12, vTLS10} {
+		for _, suite := range []uint16{ztls.TLS_DHE_RSA_WITH_AES_128_CBC_SHA, ztls.TLS_DHE_RSA_WITH_AES_128_GCM_SHA256} {
+			if v != vTLS12 && suite == ztls.TLS_DHE_RSA_WITH_AES_128_GCM_SHA256 {
+				continue
+			}
+			for _, insecure := range []bool{false, true} {
+				ref := refParams{kind: kindCBC, macLen: 20, keyLen: 16, ivLen: 16}
+				if suite == ztls.TLS_DHE_RSA_WITH_AES_128_GCM_SHA256 {
+					ref = refParams{kind: kindGCM12, keyLen: 16, ivLen: 4}
+				}
+				sc := scenario{EUT: "client", Synth: "dhe", Insecure: insecure, Cell: cell{Version: v, Suite: suite, Kind: tlspair.RSA2048, Ref: ref}}
+				sc.Name = fmt.Sprintf("%04x/%04x/client/peer=synthetic-dhe", v, suite)
+				if insecure {
+					sc.Name += "+insecure"
+				}
+				out = append(out, sc)
+			}
+		}
+	}
 	return out
 }
 
@@ -197,6 +233,9 @@ func firstHello(stream []byte) (random []byte) {
 
 // record runs the genuine session(s) of a scenario and prepares the peer's script.
 func (sc *scenario) record() (*transcript, error) {
+	if sc.Synth == "dhe" {
+		return sc.synthDHE()
+	}
 	t := &transcript{sc: sc, tls13: sc.Cell.Version == vTLS13}
 	var cache *frozenCache
 	if sc.Resume {
@@ -378,6 +417,8 @@ type eutSession struct {
 	driverEnd chan struct{}
 	obsEnd    chan struct{}
 	current   atomic.Value // name of the call the driver is in
+	appBytes  atomic.Int64 // bytes delivered by Read
+	sentCKX   bool
 }
 
 func (e *eutSession) call(name string, f func() error) (err error) {
@@ -416,10 +457,10 @@ func (e *eutSession) readLoop(max int) {
 	for i := 0; i < max; i++ {
 		var n int
 		err := e.call("Read", func() error { var err error; n, err = e.conn.Read(buf); return err })
+		e.appBytes.Add(int64(n))
 		if err != nil {
 			return
 		}
-		_ = n
 	}
 }
 
@@ -487,6 +528,7 @@ type replayOutcome struct {
 	postPanics  []*core.PanicInfo
 	postBlocked string
 	consumed    int64
+	eutWrote    int64
 }
 
 // replay feeds chunks to a fresh endpoint of the scenario. chunks[:first] are sent first; the rest
@@ -543,6 +585,7 @@ func (t *transcript) replay(chunks [][]byte, first int, prog int, observer bool,
 		}
 	}
 	out.consumed = e.tc.BytesRead()
+	out.eutWrote = e.tc.BytesWritten()
 	// the script is over: close the transport
 	peerEnd.Close()
 	if closeBoth {
@@ -604,10 +647,8 @@ func (t *transcript) replay(chunks [][]byte, first int, prog int, observer bool,
 		if c.Name == "Handshake" && c.Err == "<nil>" {
 			out.handshakeOK = true
 		}
-		if c.Name == "Read" && c.Err == "<nil>" {
-			out.appBytes++
-		}
 	}
+	out.appBytes = int(e.appBytes.Load())
 	if e.conn.ConnectionState().HandshakeComplete {
 		out.handshakeOK = true
 	}
@@ -696,6 +737,10 @@ func runC32(c *core.Ctx) {
 		c.Eval(1)
 		judge(c, id, map[string]any{"scenario": sc.Name, "plan": "control"}, cchunks, o)
 		t.faithful = o.handshakeOK && o.appBytes > 0
+		if sc.Synth != "" {
+			// the hand-built flight ends with ServerHelloDone: faithful = the client answered with its key exchange flight
+			t.faithful = o.reached && o.eutWrote > 600
+		}
 		if t.faithful {
 			c.Count("transcripts_replayed_faithfully", 1)
 		} else {
